@@ -49,6 +49,9 @@ Code == [
   rereg1   |-> <<W("CM"), U("CM")>> \o Register("A1"),                      \* Unregister + Register of a session's Adj-RIB-Out
   rereg2   |-> <<W("CM"), U("CM")>> \o Register("A2"),
   dump     |-> <<R("L"), U("L"), R("A1"), U("A1"), R("I"), U("I")>>,
+  unreg    |-> <<W("CM"), U("CM"), R("I"), U("I"), R("A1"), U("A1")>>,      \* Unregister of a client that is not registered, at every table
+  \* an FSM that is not taking events for a while (reconnect pause) with a Cease already waiting for it, then peer.stop
+  fsmcease |-> << <<"recv", "ev">> >>,
   \* a ClientManager at its end of life: Dispose, then a late registration
   cmlate   |-> IF Discipline = "original" THEN <<W("CMX")>> ELSE <<W("CMX"), U("CMX")>>,   \* RegisterWithOptions returned with the lock held
   cmuse    |-> <<R("CMX"), U("CMX")>>,                                      \* ClientCount / Clients / Unregister afterwards
